@@ -25,7 +25,7 @@ func (i *InMemoryStore) GetAllSessions() []PFCPSession {
 
 	i.sessions.Range(func(key, value interface{}) bool {
 		v := value.(PFCPSession)
-		sessions = append(sessions, v)
+		sessions = append(sessions, v.clone())
 		return true
 	})
 
@@ -78,5 +78,7 @@ func (i *InMemoryStore) GetSession(fseid uint64) (PFCPSession, bool) {
 
 	logger.PfcpLog.With("session", session).Debugln("Got PFCP session from local store")
 
-	return session, ok
+	// Callers edit the rules of the returned session in place (RemovePDR shifts the slice,
+	// MarkSessionQer reorders QER lists) and only store it back when the request succeeds.
+	return session.clone(), ok
 }
